@@ -3,7 +3,7 @@
  * mode 0  partition helpers, exhaustive: random_kfold_group_generator + kfold_group_train_test_split for
  *         all nobj 1..30 x groups 1..nobj x seeds, train_test_split for all nobj x testsize 0.1..0.9 x seeds.
  * mode 1  LeaveOneOut x {PLS, MLR, LDA}
- * mode 2  KFoldCV x {PLS, MLR} for EVERY user label vector in {0..k-1}^n
+ * mode 2  KFoldCV x {PLS, MLR, LDA} for EVERY user label vector in {0..k-1}^n
  * mode 3  BootstrapRandomGroupsCV x {PLS, MLR, LDA}, nthreads 1..3 (workers of a batch run inline, in order), groups 2..n, iterations {1,2,3,4,6,12}
  *
  * Oracles (modes 1-3), all on the real routines:
@@ -400,9 +400,14 @@ static void mode_kfold(void) {
   /* n = 7 ({0..3}^7, 16384 label vectors): two worker threads (fewer threads than groups and a ragged last batch), small learner alphabet */
   int tc = n == 7 ? 1 : vx_choose("threads", 3), nthreads = tc == 0 ? 1 : tc == 1 ? 2 : 4;
   int dl = 0;
-  cfg_t c; choose_learner(&c, 2, n == 7 ? -1 : T ? 1 : 0); c.n = n;
+  cfg_t c; choose_learner(&c, n == 7 ? 2 : 3, n == 7 ? -1 : T ? 1 : 0); c.n = n;
   /* the statement's refit is undefined when a training set cannot carry the model */
   for (int g = 0; g < nlab; g++) if (cnt[g]) vx_require(c.n - cnt[g] >= c.p + 2);
+  if (c.algo == A_LDA) for (int g = 0; g < nlab; g++) if (cnt[g]) {   /* every class keeps >= 2 members outside every fold (class of object i is i mod ncls) */
+    int left[4] = {0, 0, 0, 0}; for (int i = 0; i < n; i++) if (lab[i] != g) left[i % c.ncls]++;
+    for (int q = 0; q < c.ncls; q++) vx_require(left[q] >= 2);
+    vx_require(c.n - cnt[g] - c.ncls >= c.p);
+  }
   call_t k = {S_KFOLD, nthreads, 0, 1, lab};
   cv_case(&c, &k, dl);
 }
@@ -496,7 +501,7 @@ static void body(void) {
 
 int main(int argc, char **argv) {
   vg_seed(getenv("VERIF_SEED") ? atol(getenv("VERIF_SEED")) : 0);
-  vx_describe("alphabet", "helpers: nobj 1..30 x groups 1..nobj x seeds 0..7[63], testsize .1...9; LOO x {PLS nlv<=2[3] ny<=2[3] scaling, MLR p<=3[6] ny<=3, LDA 2-3 classes} x n {6,7,9,12[,20,30]} x threads {1,2,3,n+1[,8]}; KFoldCV x {PLS,MLR} x every label vector in {0,1,2}^6 x threads {1,2,4} [and {0..3}^7 x 2 threads]; Bootstrap x {PLS,MLR,LDA} x n {6,8,9[,12]} x groups 1..n x iterations {1,2,3,4,6,12}, 1 thread; each followed by n re-runs with one response changed");
+  vx_describe("alphabet", "helpers: nobj 1..30 x groups 1..nobj x seeds 0..7[63], testsize .1...9; LOO x {PLS nlv<=2[3] ny<=2[3] scaling, MLR p<=3[6] ny<=3, LDA 2-3 classes} x n {6,7,9,12[,20,30]} x threads {1,2,3,n+1[,8]}; KFoldCV x {PLS,MLR,LDA} x every label vector in {0,1,2}^6 x threads {1,2,4} [and {0..3}^7 x 2 threads]; Bootstrap x {PLS,MLR,LDA} x n {6,8,9[,12]} x groups 1..n x iterations {1,2,3,4,6,12}, 1 thread; each followed by n re-runs with one response changed");
   vx_describe("oracle", "reported value = (mean over sweeps of) public-API refit on the other folds (allowance 1e3*eps*n*kappa^2*scale, kappa of the training design by long-double SVD); own-response change leaves own prediction bit-identical; folds observed at PLS/MLR/LDA entry points are disjoint, exhaustive partitions; influence-matrix reconstruction of the bootstrap partition; residual = prediction - observed[col mod ny]");
   vx_set_shard_depth(5);
   vx_expect_outcomes(500);
